@@ -45,6 +45,7 @@ func valueErrKind(msg string) int {
 
 var reFetchErr = regexp.MustCompile(`^Failed to fetch from Subgraph '([^']*)' at Path '([^']*)'(?:, Reason: (.*))?\.$`)
 var reStatus = regexp.MustCompile(`^\d+(: .*)?$`)
+var reDepsErr = regexp.MustCompile(`^Failed to obtain field dependencies from Subgraph '([^']*)' at Path '([^']*)'\.$`)
 
 // classify one entry of the response's errors array: (l kind fid) loader error, (v kind path) value completion
 func classifyErr(p *Plan, item gjson.Result) string {
@@ -72,6 +73,15 @@ func classifyErr(p *Plan, item gjson.Result) string {
 			kind = 98
 		}
 		return common.L("l", common.I(kind), common.I(fid))
+	}
+	if m := reDepsErr.FindStringSubmatch(msg); m != nil {
+		fid := -1
+		for _, f := range p.Fetches {
+			if f.DSName() == m[1] && f.ResponsePath() == m[2] && (fid < 0 || f.ID < fid) {
+				fid = f.ID
+			}
+		}
+		return common.L("l", common.I(7), common.I(fid))
 	}
 	if reStatus.MatchString(msg) {
 		return "(l 6 -1)"
